@@ -428,6 +428,12 @@ def e2e_part(ctx, rows, tz):
         cases.append(('-1d', '+1d', tza, ('ok', (nows - 86400, o), (nows + 86400, o))))
         cases.append(('+1d', '-1d', tza, ('reject', 'after-gt-before')))
         cases.append(('20220103', '20220102', tza, ('reject', 'after-gt-before')))
+        # after later than before by less than a second / a millisecond / one microsecond, also across zones: still rejected
+        t0 = calendar.timegm((2000, 1, 2, 3, 4, 5, 0, 0, 0)) - o
+        for a_, b_ in [('2000-01-02T03:04:05.678901', '2000-01-02T03:04:05.678001'), ('2000-01-02T03:04:05.678002', '2000-01-02T03:04:05.678001'),
+                       ('2000-01-02T03:04:05.900', '2000-01-02T03:04:05.100'), ('2000-01-02T03:04:05.678002 PST', '2000-01-02T11:04:05.678001Z')]:
+            cases.append((a_, b_, tza, ('reject', 'after-gt-before')))
+        cases.append(('2000-01-02T03:04:05.678001', '2000-01-02T03:04:05.678901', tza, ('ok', (t0, o), (t0, o))))
         cases.append(('20220102', '20220102', tza, ('ok', (calendar.timegm((2022, 1, 2, 0, 0, 0)) - o, o), (calendar.timegm((2022, 1, 2, 0, 0, 0)) - o, o))))
         cases.append(('@+1d', '@-1d', tza, ('reject', 'both-relative')))
         cases.append(('@-1d', '@+1d', tza, ('reject', 'both-relative')))
